@@ -1,16 +1,39 @@
-(* C06 — Autogenerate is quiet on a matching database and converges in one pass.  Statements only. *)
+(* C06 — Autogenerate is quiet on a matching database and converges in one pass.  Statements only.
+   The full-strength statements (all server defaults) are FALSE of the faithful model and of the real code: SQLiteImpl.
+   compare_server_default strips "(...)" from the metadata string before it strips quotes from the reflected literal, does not
+   undo the doubling of quotes, and its .+ does not match an empty literal.  Hence the _refuted twins and the defaults_ok
+   hypothesis (Schema.dflt_ok: no quote / double quote / parenthesis / newline inside; Python strings non-empty). *)
 From AV Require Import Model.Schema Model.Diff Spec.C06 Proofs.SchemaProof Proofs.C06Proof.
 
 (* comparing a database created from A with A reports nothing, for every compare_type / compare_server_default *)
-Theorem C06_quiet : forall g A, wf_schemab A = true -> diff g (reflect_sqlite A) A = [].
+Theorem C06_quiet_partial : forall g A, wf_schemab A = true -> defaults_ok A = true -> diff g (reflect_sqlite A) A = [].
 Proof. exact diff_quiet. Qed.
-Print Assumptions C06_quiet.
+Print Assumptions C06_quiet_partial.
 
-(* applying the first comparison's operations to db(A) yields a database on which the second comparison is empty *)
-Theorem C06_converge : forall g A B, wf_schemab A = true -> wf_schemab B = true ->
+(* applying the first comparison's operations to db(A) yields a database on which the second comparison is empty
+   (A's own defaults are unrestricted: whatever they are, they are replaced or kept consistently) *)
+Theorem C06_converge_partial : forall g A B, wf_schemab A = true -> wf_schemab B = true -> defaults_ok B = true ->
   diff g (reflect_sqlite (apply_ops (diff g (reflect_sqlite A) B) A)) B = [].
 Proof. exact diff_converge. Qed.
-Print Assumptions C06_converge.
+Print Assumptions C06_converge_partial.
+
+Open Scope N_scope.
+(* witnesses: one table, one VARCHAR column whose server default is the Python string "(a)", resp. "", resp. "it's" *)
+Definition bad_schema (s:list N) : schema :=
+  [mkTable 0 [mkCol 0 (mkTy 0 []) false true None; mkCol 1 (mkTy 3 [20]) true false (Some (DLit s))] [] []].
+Definition bad_defaults : list (list N) := [[40;97;41]; []; [105;116;39;115]].
+Theorem C06_quiet_refuted : exists g A, wf_schemab A = true /\ diff g (reflect_sqlite A) A <> [].
+Proof. exists (mkCfg true true), (bad_schema [40;97;41]). split; [reflexivity|]. vm_compute. discriminate. Qed.
+Print Assumptions C06_quiet_refuted.
+Theorem C06_converge_refuted : exists g A B, wf_schemab A = true /\ wf_schemab B = true /\
+  diff g (reflect_sqlite (apply_ops (diff g (reflect_sqlite A) B) A)) B <> [].
+Proof. exists (mkCfg true true), (bad_schema [40;97;41]), (bad_schema [40;97;41]). split; [reflexivity|]. split; [reflexivity|].
+  vm_compute. discriminate. Qed.
+Print Assumptions C06_converge_refuted.
+(* each of the three witness strings is outside dflt_ok and makes the comparison of a matching database non-empty *)
+Example C06_refuted_class :
+  forallb (fun s => negb (dflt_ok (DLit s)) && negb (is_nil (diff (mkCfg true true) (reflect_sqlite (bad_schema s)) (bad_schema s)))) bad_defaults = true.
+Proof. vm_compute. reflexivity. Qed.
 
 (* the decider applied to the implementation's outputs is sound for the property *)
 Theorem C06_decider_sound : forall i o, check_C06 i o = true -> C06_holds i o.
@@ -19,22 +42,24 @@ Print Assumptions C06_decider_sound.
 
 (* the model of a whole case (4 settings, quiet + converge in both rendering modes) satisfies the property *)
 Theorem C06_model_holds : forall i, inclass_C06 i = true -> C06_holds i (model_C06 i).
-Proof. intros i H. apply inclass_C06_wf in H. destruct H. apply model_C06_holds; auto. Qed.
+Proof. intros i H. apply inclass_C06_wf in H. destruct H as [? [? [? ?]]]. apply model_C06_holds; auto. Qed.
 Print Assumptions C06_model_holds.
 
-(* the hypotheses are satisfiable by a pair on which the comparison has real work to do:
-   a column changes nullability and type, a unique constraint becomes a unique index, an index and a table are
-   dropped, a table with an index is created *)
-Open Scope N_scope.
+(* the hypotheses are satisfiable by a pair on which the comparison has real work to do: a column changes nullability, type
+   and server default, another gains a default, a unique constraint becomes a unique index, an index and a table are
+   dropped, a table with an index and a two-column foreign key is created, a foreign key is dropped and a self-referential one added *)
 Definition ex_A : schema :=
-  [mkTable 0 [mkCol 0 (mkTy 0 []) false true; mkCol 1 (mkTy 3 [20]) true false; mkCol 2 (mkTy 5 [10;2]) true false]
-             [Uq 1 [1]; Ix 2 [2;1] false];
-   mkTable 1 [mkCol 0 (mkTy 0 []) false true] []].
+  [mkTable 0 [mkCol 0 (mkTy 0 []) false true None; mkCol 1 (mkTy 3 [20]) true false (Some (DLit [53]));
+              mkCol 2 (mkTy 5 [10;2]) true false None; mkCol 4 (mkTy 0 []) true false (Some (DExpr [49;46;53]))]
+             [Uq 1 [1]; Ix 2 [2;1] false] [mkFk 0 [2] 0 [0]];
+   mkTable 1 [mkCol 0 (mkTy 0 []) false true None] [] []].
 Definition ex_B : schema :=
-  [mkTable 0 [mkCol 0 (mkTy 0 []) false true; mkCol 1 (mkTy 4 []) false false; mkCol 3 (mkTy 9 []) true false]
-             [Ix 1 [1] true];
-   mkTable 2 [mkCol 0 (mkTy 0 []) false true; mkCol 1 (mkTy 1 []) true false] [Uq 20 [1]; Ix 21 [1;0] false]].
+  [mkTable 0 [mkCol 0 (mkTy 0 []) false true None; mkCol 1 (mkTy 4 []) false false (Some (DExpr [39;120;39]));
+              mkCol 3 (mkTy 9 []) true false None; mkCol 4 (mkTy 0 []) true false (Some (DExpr [40;49;46;53;41]))]
+             [Ix 1 [1] true] [mkFk 1 [3] 0 [0]];
+   mkTable 2 [mkCol 0 (mkTy 0 []) false true None; mkCol 1 (mkTy 1 []) true false (Some (DLit [97;32;98]))] [Uq 20 [1]; Ix 21 [1;0] false]
+             [mkFk 20 [1;0] 0 [0;1]]].
 Example C06_nonvacuous :
-  inclass_C06 (ex_A, ex_B) = true /\ length (diff (mkCfg true true) (reflect_sqlite ex_A) ex_B) = 9%nat /\
+  inclass_C06 (ex_A, ex_B) = true /\ length (diff (mkCfg true true) (reflect_sqlite ex_A) ex_B) = 11%nat /\
   check_C06 (ex_A, ex_B) (model_C06 (ex_A, ex_B)) = true.
 Proof. vm_compute. auto. Qed.
